@@ -19,12 +19,12 @@ MIN_NONTRIVIAL = {"quick": 100, "thorough": 1000}
 EXHAUSTIVE = True
 RULE = (
     "A fixed family of small configurations (1-3 chains; sequential and 2-process; single stage, warm-up + main, "
-    "windowed warm-up with metric adapter; in-memory, temporary and user-directory memmap; generic and HMC "
+    "windowed warm-up with metric adapter, warm-up + main without adapters given as None or as an empty collection; in-memory, temporary and user-directory memmap; generic and HMC "
     "samplers) is crossed with EVERY interrupt point: KeyboardInterrupt raised at every (chain, iteration) from the "
     "integration transition, from the momentum transition, from each trace function, from the k-th trace call of EVERY worker process at once (as a "
     "terminal Ctrl-C reaches all workers; runs with more chains than processes), and (sequential runs) at every "
     "call index of the density and gradient functions counted in the fault-free run - enumerated exhaustively per "
-    "configuration (quick: 13 of the 45 configurations, covering every adapter / process / storage combination). Hypothesis adds generated configurations with generated "
+    "configuration (quick: 19 of the 57 configurations, covering every adapter / process / storage combination). Hypothesis adds generated configurations with generated "
     "interrupt points. Oracle: the call returns; using the independent per-iteration log, rows of iterations that "
     "completed equal the uninterrupted run with the same seed, rows of iterations never started hold the declared "
     "fill values, the interrupted row holds per entry either; no iteration of a later stage is executed; returned "
@@ -56,13 +56,20 @@ def base_configs():
                             continue
                         out.append(dict(common, sampler=sampler, n_chain=n_chain, n_process=n_process, n_warm=n_warm,
                                         n_main=n_main, adapters=adapters, stager=stager, storage=storage))
+    # several stages WITHOUT adapters (adapters=None or an empty collection; warm-up stage followed by the main stage)
+    for sampler in ("generic", "multinomial"):
+        for style in ("none", "empty"):
+            for n_chain, n_process, storage in ((1, 1, "memory"), (2, 1, "memory"), (2, 2, "memmap_dir")):
+                out.append(dict(common, sampler=sampler, n_chain=n_chain, n_process=n_process, n_warm=3, n_main=3,
+                                adapters="none", no_adapters_as=style, stager="default", storage=storage))
     return out
 
 
 def enumerated(tier):
     cfgs = base_configs()
     if tier == "quick":
-        cfgs = [c for i, c in enumerate(cfgs) if i % 7 in (0, 3)]   # 13 of 45, covering every adapter/process/storage mix
+        # 13 of the 45 crossed configurations (covering every adapter/process/storage mix) + 6 of the 12 without adapters
+        cfgs = [c for i, c in enumerate(cfgs[:45]) if i % 7 in (0, 3)] + cfgs[45::2]
     for cfg in cfgs:
         total = cfg["n_warm"] + cfg["n_main"]
         for cid in range(cfg["n_chain"]):
@@ -230,9 +237,8 @@ def run_case(case) -> Result:
                         return False
             return True
 
-        types = b.sampler.transitions[b.int_key].statistic_types
-        st_arrs = stats if b.hmc else stats.get(b.int_key, {})
-        sb_arrs = sb if b.hmc else sb.get(b.int_key, {})
+        stat_sets = [(tk, b.sampler.transitions[tk].statistic_types, stats if b.hmc else stats.get(tk, {}),
+                      sb if b.hmc else sb.get(tk, {})) for tk, _ in b.stat_keys]
         for c in range(cfg["n_chain"]):
             tr_its, st_its, _ = expected_rows(cfg, plan, recs, c)
             if traces is not None:
@@ -241,10 +247,11 @@ def run_case(case) -> Result:
                     fill = np.nan if np.issubdtype(a.dtype, np.inexact) else 0
                     if not check_rows(f"trace {key}", a, tb[key][c], fill, tr_its, c):
                         return res
-            for sk, (dtype, default) in types.items():
-                # statistics of the interrupted iteration may have been written before the interrupt
-                if not check_rows(f"statistic {sk}", st_arrs[sk][c], sb_arrs[sk][c], default, st_its, c):
-                    return res
+            for tk, types, st_arrs, sb_arrs in stat_sets:
+                for sk, (dtype, default) in types.items():
+                    # statistics of the interrupted iteration may have been written before the interrupt
+                    if not check_rows(f"statistic {tk}.{sk}", st_arrs[sk][c], sb_arrs[sk][c], default, st_its, c):
+                        return res
         # ---- final states
         by = {(r["cid"], r["it"]): r for r in recs if r["t"] == "rec"}
         for s in fs:
@@ -258,6 +265,8 @@ def run_case(case) -> Result:
             ok = ref is not None and np.array_equal(pos, ref)
             if not ok:
                 alt = [np.array(r["pos"]) for (cc, _), r in by.items() if cc == c] + [np.array(cfg["q"][c])]
+                # states left by a completed transition of the interrupted iteration (several transitions per iteration)
+                alt += [np.array(r["pos_after"]) for r in recs if r.get("cid") == c and "pos_after" in r]
                 # positions occupied during the interrupted iteration are valid chain states as well
                 ok = any(np.array_equal(pos, a) for a in alt)
             if not ok and intr[0].startswith("trace"):
